@@ -1,17 +1,17 @@
-\* C14 negative control: this deviation alone must break NoViolation
+\* C14 ideal specification (no deviation): every C14 invariant must hold
 SPECIFICATION Spec
 CONSTANTS
   N = 1
   Catalogue = "domain"
   Relations = {"none"}
   MaxSet = 1
-  MaxWrite = 1
+  MaxWrite = 2
   Validates = {FALSE, TRUE}
   SetClass = "all"
-  MaxEdit = 0
-  MaxAssign = 0
+  MaxEdit = 1
+  MaxAssign = 2
   UpdEnabled = {TRUE}
-  Deviations = {"InfTextAsFloat"}
+  Deviations = {}
 VIEW vw
 INVARIANT NoViolation
 INVARIANT PromoteDemote
